@@ -32,7 +32,10 @@ MANIFEST = {
             'injected at random instruction counts and every complete run must '
             'reproduce the first event log; pairs of jobs are run back to back '
             'with the production output sink and the second must behave as it '
-            'does alone. Sampled histories.',
+            'does alone; two to four jobs (one of them possibly rejected) are '
+            'compiled first and executed afterwards, in order or shuffled, and '
+            'each must do what its script does as the only job. Sampled '
+            'histories.',
     'note': 'Trusted: equality of event logs / instruction fingerprints as the '
             'notion of "same result". Device state is reset between runs '
             '(replies to `get` are part of the environment, not of the job).',
@@ -43,7 +46,8 @@ N = {'quick': 2000, 'thorough': 100000}
 TIMEOUT = {'quick': 900, 'thorough': 10800}
 RULE = ('P: one case = one sequence of 2-8 compile requests on one Parser; '
         'J: one case = one job executed 3 times (complete, stopped at a '
-        'random step, complete); N: one case = an ordered pair of jobs; '
+        'random step, complete); N: one case = an ordered pair of jobs; Q: one '
+        'case = 2-4 jobs compiled first and executed later; '
         'non-trivial: P sequences containing both an accepted and a rejected '
         'text, J/N jobs producing at least 3 events; distinct = distinct '
         'texts.')
@@ -413,6 +417,86 @@ def part_pair(ctx, i):
         ctx.count('pairs_equal')
 
 
+def part_queued(ctx, i):
+    """The way `lsrun a.ls b.ls c.ls`, `queue_script()` and the web server
+    work: every job is compiled when it is queued and executed later, after
+    the other jobs have been compiled.  Each job, when its turn comes, does
+    what the same script does as the only job there is."""
+    rng = ctx.rng('queued', i)
+    pop = gen.random_population(rng, 4)
+    scripts = []
+    for _ in range(rng.randint(2, 4)):
+        try:
+            prog, _, dec = gen.generate(rng, pop, PROFILE_OUT)
+        except gen.TooBig:
+            return
+        scripts.append((render.canonical(render.tokens(prog, rng)), dec))
+    if rng.random() < 0.3:
+        # one text that is rejected sits in the queue as well
+        scripts.insert(rng.randrange(len(scripts) + 1),
+                       (rng.choice(['on all ]]]', 'define', 'hue 5 set']), []))
+    diffrun.setup(pop)
+    alone = []
+    for text, dec in scripts:
+        reset_devices(pop)
+        r = run_script(text, dec, budget=20000)
+        if r.budget_exhausted or r.stops or r.compile_exc is not None:
+            return
+        alone.append((r.accepted, r.errors,
+                      repr(refmodel.stream_of(r.log)) if r.accepted else None))
+    jobs = []
+    for text, dec in scripts:
+        try:
+            jobs.append(ScriptJob.from_string(text))
+        except Exception as ex:
+            ctx.violation('queued:compile-raised', '{!r} | {!r}'.format(
+                ex, text[:200]), {'part': 'queued',
+                                  'scripts': [t for t, _ in scripts]})
+            return
+    replay = {'part': 'queued', 'scripts': [t for t, _ in scripts],
+              'population': pop}
+    ctx.case('Q:' + sig([t for t, _ in scripts]),
+             nontrivial=sum(1 for a in alone if a[0]) >= 2)
+    order = list(range(len(jobs)))
+    if rng.random() < 0.3:
+        rng.shuffle(order)
+    for k in order:
+        (text, dec), job, (acc, errs, want) = scripts[k], jobs[k], alone[k]
+        if (job.program is not None) != bool(acc):
+            ctx.violation(
+                'queued:verdict-changed',
+                'job {} of {} compiled before the others: {} where the script '
+                'alone is {} | {!r}'.format(
+                    k, len(jobs),
+                    'accepted' if job.program is not None else 'rejected',
+                    'accepted' if acc else 'rejected', text[:200]), replay)
+            return
+        if not acc:
+            if job.compile_errors != errs:
+                ctx.violation(
+                    'queued:errors-changed',
+                    'job {} of {}: compile_errors is {!r} after the other jobs '
+                    'were compiled, {!r} alone | {!r}'.format(
+                        k, len(jobs), str(job.compile_errors)[:120],
+                        str(errs)[:120], text[:200]), replay)
+                return
+            ctx.count('queued_rejected_jobs_compared')
+            continue
+        reset_devices(pop)
+        r = run_script(text, dec, job=job, budget=20000)
+        got = repr(refmodel.stream_of(r.log))
+        if r.stops or r.budget_exhausted or got != want:
+            a = refmodel.stream_of(r.log)
+            ctx.violation(
+                'queued:job-differs',
+                'job {} of {} compiled first and run later produced {} event(s) '
+                '(first: {}) {} where the script alone produces {} | {!r}'
+                .format(k, len(jobs), len(a), a[:1], r.stops[:1],
+                        want[:160], text[:300]), replay)
+            return
+        ctx.count('queued_jobs_equal')
+
+
 PROFILE_OUT = gen.profile(len=(2, 12), depth=2,
                           w={'print': 20, 'printf': 6, 'units': 2})
 
@@ -420,13 +504,15 @@ PROFILE_OUT = gen.profile(len=(2, 12), depth=2,
 def run_shard(ctx):
     n = N[ctx.tier]
     for i in range(ctx.shard, n, ctx.nshards):
-        k = (i // ctx.nshards) % 3
+        k = (i // ctx.nshards) % 4
         if k == 0:
             part_parser(ctx, i)
         elif k == 1:
             part_job(ctx, i)
-        else:
+        elif k == 2:
             part_pair(ctx, i)
+        else:
+            part_queued(ctx, i)
     ctx.sample({'part': 'parser', 'sequence': ['on all',
                                                'this is garbage ]]]',
                                                'on all']})
@@ -438,7 +524,7 @@ def run_shard(ctx):
 def finalize(merged):
     c = merged['counters']
     for need in ('compile_requests', 'reruns_equal', 'stopped_runs',
-                 'pairs_equal'):
+                 'pairs_equal', 'queued_jobs_equal'):
         if not c.get(need) and not merged['violations']:
             merged['inconclusive'].append('monitor observed nothing: ' + need)
 
